@@ -12,7 +12,7 @@ from . import wl_groups as wl
 PROPERTY = "C18"
 LEVEL = "exploration"
 SCENARIOS = {"one-group": 2, "multi-group": 2, "aerotech": 1, "big": 1}
-TIERS = {"quick": {"runs": 6000, "chunk": 20}, "thorough": {"runs": 180000, "chunk": 100}}
+TIERS = {"quick": {"runs": 6000, "chunk": 20}, "thorough": {"runs": 50000000, "wall_s": 600, "chunk": 100, "recheck": 16}}
 RULE = ("one run = 1-10 simulated terminals (input/output sizes 0..max, read-write flag, "
         "FMMU or direct addressing, optionally Aerotech-style with declared packet sizes), "
         "1-3 real slow SyncGroups on one master (a terminal is written by at most one "
